@@ -43,12 +43,14 @@ def main():
         write_evidence(ctx, proof, None, t0, 1)
         sys.exit(1)
 
+    oblig = source_obligations(ctx)
+    if oblig: log(f"[{prop}] source obligations broken: {json.dumps(oblig)[:600]}")
     # 3-5. suites: generate, run both sides, compare through the property's projection
     if 'replay' in opts:
         res = suites.replay(ctx, opts['replay'])
     else:
         res = suites.run(ctx, round_no=0)
-        broken = proof['broken'] or proof['forbidden_hits'] or res.corr_fail
+        broken = proof['broken'] or proof['forbidden_hits'] or res.corr_fail or oblig
         if broken and not res.violations:
             # proof or correspondence broke and no failing input yet: widen the search (other seeds)
             for k in range(1, 4):
@@ -68,10 +70,10 @@ def main():
         rp = write_replay(ctx, v['hash'], v)
         print(f"VIOLATION property={prop} replay={rp}")
         rc = 1
-    elif proof['broken'] or proof['forbidden_hits'] or res.corr_fail or gram.get('error'):
+    elif proof['broken'] or proof['forbidden_hits'] or res.corr_fail or gram.get('error') or oblig:
         what = {'kind': 'proof-or-correspondence-broken', 'property': prop,
                 'broken_theorems': proof['broken'], 'forbidden_hits': proof['forbidden_hits'], 'grammar': gram,
-                'lake_output': proof['build_err'],
+                'lake_output': proof['build_err'], 'source_obligations_broken': oblig,
                 'correspondence_failures': [dict(suite=c['suite'], case=c['case'], real=c['real'], model=c['model']) for c in res.corr_fail[:5]],
                 'note': 'the named theorems / correspondence no longer check; the search (real crate vs RFC spec) found no failing input'}
         rp = write_replay(ctx, 'unshown', what)
